@@ -160,6 +160,17 @@ pub fn gen_values(tier: &str) -> Vec<Val> {
         let y = &leaves[(i * 7 + 3) % leaves.len()];
         out.extend(shapes(x, y));
     }
+    // rows around the empty string / null (quoted empty field vs empty field), every position
+    let e = [s(""), Val::Null, s("a"), int(1)];
+    for a in &e {
+        out.push(arr(vec![a.clone()]));
+        for b in &e {
+            out.push(arr(vec![a.clone(), b.clone()]));
+            for c in &e {
+                out.push(arr(vec![a.clone(), b.clone(), c.clone()]));
+            }
+        }
+    }
     let n = if tier == "thorough" { 6000 } else { 600 };
     for _ in 0..n {
         out.push(rand_val(&mut rng, &leaves, 3));
@@ -436,6 +447,18 @@ pub fn yaml_strings(tier: &str) {
         strings.push(k.to_uppercase().into_bytes());
         strings.push(k.to_lowercase().into_bytes());
     }
+    // every indicator character in first, middle and LAST position, alone and next to blanks / letters
+    // (longer than the exhaustive scope: `a : b`, `ab -`, `a\t#`, ...)
+    let indicators = [":", "#", "-", "?", ",", "[", "]", "{", "}", "&", "*", "!", "|", ">", "'", "\"", "%", "@", "`", "~", "=", "<", "\\", "--", "::", ": :", "- -"];
+    let pres = ["", "a", "a ", "a\t", " ", "\t", "ab", "a b ", "1", "é", "-", ":"];
+    let posts = ["", "a", " a", "\ta", " ", "\t", "ab", " a b", "1", "é", "-", ":", "\n"];
+    for i in indicators {
+        for p in pres {
+            for q in posts {
+                strings.push(format!("{p}{i}{q}").into_bytes());
+            }
+        }
+    }
     // number-like spellings
     let mut rng = Rng::new(prng::seed_from_env() ^ 0x14A);
     let parts: &[&str] = &["+", "-", ".", "0", "1", "9", "e", "E", "x", "o", "b", "_", "F", "a", "inf", "nan", " ", ":"];
@@ -524,6 +547,25 @@ pub fn tab(tier: &str) {
         }
         texts.extend(next.iter().cloned());
         level = next;
+    }
+    // rows built from field spellings — in particular quoted empty fields `""` as only / first / last field of
+    // the last row, with and without a final line break (what `[""] | tocsv` writes has none)
+    let fields: &[&str] = &["", "\"\"", "a", "\"a\"", "1", "\"1\"", "\"\"\"\"", "\" \"", "\"a,b\"", "\"\n\"", "true"];
+    let ends: &[&str] = &["", "\n", "\r\n", "\r", "\n\n"];
+    for sep in [",", "\t"] {
+        for a in fields {
+            for e in ends {
+                texts.push(format!("{a}{e}").into_bytes());
+                for b in fields {
+                    texts.push(format!("{a}{sep}{b}{e}").into_bytes());
+                    texts.push(format!("{a}\n{b}{e}").into_bytes());
+                    texts.push(format!("x{sep}y\n{a}{sep}{b}{e}").into_bytes());
+                    for c in ["", "\"\"", "a"] {
+                        texts.push(format!("{a}{sep}{b}{sep}{c}{e}").into_bytes());
+                    }
+                }
+            }
+        }
     }
     let mut rng = Rng::new(prng::seed_from_env() ^ 0x7AB);
     let parts: &[&str] = &["+", "-", ".", "0", "1", "9", "e", "E", "Infinity", "NaN", "true", "false", ",", "\t", "\"", "\\", "\n", "\r\n", "\r", "a", "n", "\"\"", " "];
@@ -718,7 +760,12 @@ pub fn cbor(tier: &str) {
                 if let Some(i) = s.iter().position(|t| (t.starts_with('X') || t.starts_with('Y')) && !t.ends_with('i')) {
                     let h = s[i][..1].to_string();
                     let (len, raw) = (s[i].clone(), s[i + 1].clone());
-                    s.splice(i..i + 2, [format!("{h}i"), len.clone(), raw.clone(), len, raw, "K".into()]);
+                    if rng.chance(1, 3) {
+                        // ciborium allows an indefinite string of the same kind as a segment (nesting counter)
+                        s.splice(i..i + 2, [format!("{h}i"), len.clone(), raw.clone(), format!("{h}i"), len.clone(), raw.clone(), format!("{h}i"), "K".into(), "K".into(), len, raw, "K".into()]);
+                    } else {
+                        s.splice(i..i + 2, [format!("{h}i"), len.clone(), raw.clone(), len, raw, "K".into()]);
+                    }
                 }
             }
             6 => { s.truncate(rng.below(s.len() + 1)) }
@@ -814,6 +861,12 @@ fn xml_write(vals: &[Val]) -> Result<Vec<u8>, String> {
     r.unwrap_or_else(|p| Err(format!("PANIC {p}")))
 }
 
+thread_local! {
+    /// may the document under construction contain `"` inside (single-quoted) attribute values?  (open finding
+    /// `xml:attr-double-quote`; kept to a third of the documents so that it cannot mask other defects)
+    static XML_ALLOW_DQ: std::cell::Cell<bool> = const { std::cell::Cell::new(false) };
+}
+
 fn xml_gen(rng: &mut Rng, depth: usize, out: &mut String) {
     let names = ["a", "b", "x:y", "html", "_n", "a-b", "a.b", "é"];
     let texts = ["t", " ", "\n  ", "a &amp; b", "&#65;", "x y", "]]", "'q'", "\"q\"", "é€", "a>b", "1", "true", ""];
@@ -822,9 +875,12 @@ fn xml_gen(rng: &mut Rng, depth: usize, out: &mut String) {
     out.push_str(name);
     for _ in 0..rng.below(3) {
         let an = *rng.pick(&["id", "x:href", "xmlns", "xmlns:x", "k"]);
-        let av = *rng.pick(&["", "v", "a b", "&lt;", "'", "x>y", "é", " "]);
+        let mut av = *rng.pick(&["", "v", "a b", "&lt;", "'", "x>y", "é", " ", "\"", "say \"hi\"", "\">"]);
+        if av.contains('"') && !XML_ALLOW_DQ.with(|c| c.get()) {
+            av = "w";
+        }
         let sp = *rng.pick(&[" ", "  ", "\n "]);
-        let q = if av.contains('\'') || rng.chance(1, 2) { '"' } else { '\'' };
+        let q = if av.contains('"') { '\'' } else if av.contains('\'') || rng.chance(1, 2) { '"' } else { '\'' };
         if out.contains(&format!(" {an}=")) && out.rfind('<').map_or(false, |i| out[i..].contains(&format!(" {an}="))) {
             continue;
         }
@@ -868,6 +924,7 @@ pub fn xml(tier: &str) {
     let n = if tier == "thorough" { 4000 } else { 500 };
     for _ in 0..n {
         let mut d = String::new();
+        XML_ALLOW_DQ.with(|c| c.set(rng.chance(1, 3)));
         d.push_str(*rng.pick(&prologs));
         if rng.chance(1, 3) { d.push_str(*rng.pick(&["\n", " ", "<!--x-->"])) }
         xml_gen(&mut rng, 3, &mut d);
@@ -914,6 +971,307 @@ pub fn xml(tier: &str) {
     }
 }
 
+
+// ------------------------------------------------------------------------------------------- XML model correspondence
+
+/// abstract tokens (what xmlparser is assumed to deliver), printed in the model's wire syntax
+struct XDoc {
+    toks: Vec<String>,
+    text: String,
+}
+
+fn hx(s: &str) -> String {
+    if s.is_empty() { "-".into() } else { vx::hex(s.as_bytes()) }
+}
+
+fn hxo(s: &Option<String>) -> String {
+    s.as_ref().map_or("~".into(), |s| hx(s))
+}
+
+const XNAMES: &[&str] = &["a", "b", "x:y", "html", "_n", "a-b", "a.b", "é", "x:a", "t", "c", "xml:lang", "A1"];
+const XSP: &[&str] = &[" ", "  ", "\n ", "\t"];
+
+fn xml_qname(n: &str) -> (String, String) {
+    match n.split_once(':') {
+        Some((p, l)) => (p.to_string(), l.to_string()),
+        None => (String::new(), n.to_string()),
+    }
+}
+
+fn xml_misc(rng: &mut Rng, d: &mut XDoc, in_dtd: bool) {
+    match rng.below(4) {
+        0 => {
+            let c = *rng.pick(&["", " c ", "a-b", "<x>", "&", "é", "a - b", "\n"]);
+            d.text.push_str(&format!("<!--{c}-->"));
+            d.toks.push(format!("M:{}", hx(c)));
+        }
+        1 => {
+            let t = *rng.pick(&["pi", "p", "xml-stylesheet", "x.y", "_"]);
+            let c = *rng.pick(&["", "a=\"b\"", "href='c.css'", "x ", "? >", "é", "a  b"]);
+            let sp = if c.is_empty() { *rng.pick(&["", " ", "\n"]) } else { *rng.pick(XSP) };
+            d.text.push_str(&format!("<?{t}{sp}{c}?>"));
+            d.toks.push(format!("P:{}:{}", hx(t), if c.is_empty() { "~".to_string() } else { hx(c) }));
+        }
+        _ => {
+            let _ = in_dtd;
+            d.text.push_str(*rng.pick(&[" ", "\n", "\n  ", "\t", "\r\n"]));
+        }
+    }
+}
+
+fn xml_ext(rng: &mut Rng) -> (String, String) {
+    // (text, token)
+    let lits = ["a.dtd", "", "a b", "it's", "say \"hi\"", "http://x/y?z=1", "-//W3C//DTD XHTML 1.0 Strict//EN", "é"];
+    let lit = |rng: &mut Rng| -> (String, String) {
+        let l = *rng.pick(&lits);
+        let q = if l.contains('"') { '\'' } else if l.contains('\'') { '"' } else { *rng.pick(&['"', '\'']) };
+        (format!("{q}{l}{q}"), l.to_string())
+    };
+    match rng.below(3) {
+        0 => (String::new(), "~".into()),
+        1 => {
+            let (t, l) = lit(rng);
+            (format!("SYSTEM{}{t}", *rng.pick(XSP)), format!("s{}", hx(&l)))
+        }
+        _ => {
+            let (t1, l1) = lit(rng);
+            let (t2, l2) = lit(rng);
+            (format!("PUBLIC{}{t1}{}{t2}", *rng.pick(XSP), *rng.pick(XSP)), format!("p{},{}", hx(&l1), hx(&l2)))
+        }
+    }
+}
+
+fn xml_elem(rng: &mut Rng, depth: usize, d: &mut XDoc, fault: &mut Option<&'static str>) -> bool {
+    // returns false when the document was cut (fault injected): the caller stops generating
+    let name = *rng.pick(XNAMES);
+    let (p, l) = xml_qname(name);
+    d.text.push('<');
+    d.text.push_str(name);
+    d.toks.push(format!("S:{}:{}", hx(&p), hx(&l)));
+    let anames = ["id", "x:href", "xmlns", "xmlns:x", "k", "k", "xml:lang", "é"];
+    for _ in 0..rng.below(4) {
+        let an = *rng.pick(&anames);
+        let mut av = *rng.pick(&["", "v", "a b", "&lt;", "'", "x>y", "é", " ", "\"", "say \"hi\"", "\">", "a'b", "/>", "\n", "1"]);
+        if av.contains('"') && !XML_ALLOW_DQ.with(|c| c.get()) {
+            av = "x>y";
+        }
+        let q = if av.contains('"') { '\'' } else if av.contains('\'') { '"' } else { *rng.pick(&['"', '\'']) };
+        let (ap, al) = xml_qname(an);
+        d.text.push_str(&format!("{}{an}{}={}{q}{av}{q}", *rng.pick(XSP), *rng.pick(&["", " "]), *rng.pick(&["", " ", "\n"])));
+        d.toks.push(format!("A:{}:{}:{}", hx(&ap), hx(&al), hx(av)));
+    }
+    if depth == 0 || rng.chance(1, 4) {
+        d.text.push_str(*rng.pick(&["/>", " />", "\n/>"]));
+        d.toks.push("E".into());
+        return true;
+    }
+    d.text.push_str(*rng.pick(&[">", " >"]));
+    d.toks.push("O".into());
+    let mut last_text = false;
+    for _ in 0..rng.below(5) {
+        match rng.below(9) {
+            0 | 1 | 2 => {
+                if !xml_elem(rng, depth - 1, d, fault) {
+                    return false;
+                }
+                last_text = false;
+            }
+            3 => {
+                let c = *rng.pick(&["", " c ", "a-b", "<x>", "&"]);
+                d.text.push_str(&format!("<!--{c}-->"));
+                d.toks.push(format!("M:{}", hx(c)));
+                last_text = false;
+            }
+            4 => {
+                let c = *rng.pick(&["", "a & b", "<x>", "]] >", " ", "]]", "é"]);
+                d.text.push_str(&format!("<![CDATA[{c}]]>"));
+                d.toks.push(format!("C:{}", hx(c)));
+                last_text = false;
+            }
+            5 => {
+                let t = *rng.pick(&["pi", "p"]);
+                let c = *rng.pick(&["", "a=\"b\"", "x "]);
+                d.text.push_str(&format!("<?{t}{}{c}?>", if c.is_empty() { "" } else { " " }));
+                d.toks.push(format!("P:{}:{}", hx(t), if c.is_empty() { "~".to_string() } else { hx(c) }));
+                last_text = false;
+            }
+            6 if fault.is_none() && rng.chance(1, 12) => {
+                // a token xmlparser rejects: everything after it is never read
+                d.text.push_str(*rng.pick(&["<!bad>", "<1>", "< a>", "<?xml v?>"]));
+                d.toks.push("L".into());
+                *fault = Some("lex");
+                return false;
+            }
+            _ => {
+                if !last_text {
+                    let t = *rng.pick(&["t", " ", "\n  ", "a &amp; b", "&#65;", "x y", "]]", "'q'", "\"q\"", "é€", "a>b", "1", "true", "null"]);
+                    d.text.push_str(t);
+                    d.toks.push(format!("T:{}", hx(t)));
+                    last_text = true;
+                }
+            }
+        }
+    }
+    if fault.is_none() && rng.chance(1, 25) {
+        // closing tag of another element
+        let other = if name == "a" { "b" } else { "a" };
+        d.text.push_str(&format!("</{other}>"));
+        d.toks.push(format!("Z:{}:{}", "-", hx(other)));
+        *fault = Some("unmatched");
+        return false;
+    }
+    if fault.is_none() && rng.chance(1, 25) {
+        // end of input inside the element
+        *fault = Some("unclosed");
+        return false;
+    }
+    d.text.push_str(&format!("</{name}{}>", *rng.pick(&["", " ", "\n"])));
+    d.toks.push(format!("Z:{}:{}", hx(&p), hx(&l)));
+    true
+}
+
+fn xml_doc(rng: &mut Rng) -> XDoc {
+    let mut d = XDoc { toks: vec![], text: String::new() };
+    if rng.chance(1, 2) {
+        let ver = *rng.pick(&["1.0", "1.1"]);
+        let enc = if rng.chance(1, 2) { Some(rng.pick(&["UTF-8", "utf-8", "ISO-8859-1"]).to_string()) } else { None };
+        let sa = *rng.pick(&[None, Some(true), Some(false)]);
+        let q = *rng.pick(&['"', '\'']);
+        d.text.push_str(&format!("<?xml version={q}{ver}{q}"));
+        if let Some(e) = &enc { d.text.push_str(&format!(" encoding={q}{e}{q}")) }
+        if let Some(b) = sa { d.text.push_str(&format!(" standalone={q}{}{q}", if b { "yes" } else { "no" })) }
+        d.text.push_str(*rng.pick(&["?>", " ?>"]));
+        d.toks.push(format!("D:{}:{}:{}", hx(ver), hxo(&enc), match sa { None => "~", Some(true) => "y", Some(false) => "n" }));
+    }
+    for _ in 0..rng.below(3) { xml_misc(rng, &mut d, false) }
+    if rng.chance(1, 2) {
+        let name = *rng.pick(&["a", "html", "x:y"]);
+        let (et, ek) = xml_ext(rng);
+        d.text.push_str(&format!("<!DOCTYPE{}{name}", *rng.pick(XSP)));
+        if !et.is_empty() { d.text.push_str(&format!("{}{et}", *rng.pick(XSP))) }
+        d.text.push_str(*rng.pick(&["", " "]));
+        if rng.chance(1, 2) {
+            d.text.push('[');
+            let start = d.text.len();
+            let mark = d.toks.len();
+            d.toks.push(String::new());
+            for _ in 0..rng.below(4) {
+                match rng.below(4) {
+                    0 => { d.text.push_str(*rng.pick(&["<!ENTITY e \"v\">", "<!ENTITY % p 'q'>", "<!ENTITY e SYSTEM 'f'>"])); d.toks.push("N".into()) }
+                    1 => d.text.push_str(*rng.pick(&["<!ELEMENT a (#PCDATA)>", "<!ATTLIST a b CDATA #IMPLIED>", "<!NOTATION n SYSTEM 's'>"])),
+                    _ => xml_misc(rng, &mut d, true),
+                }
+            }
+            let internal = d.text[start..].to_string();
+            d.toks[mark] = format!("X:{}:{}:{}", hx(name), ek, hx(&internal));
+            d.text.push_str(*rng.pick(&["]>", "] >", "]\n>"]));
+            d.toks.push("x".into());
+        } else {
+            d.text.push('>');
+            d.toks.push(format!("Y:{}:{}", hx(name), ek));
+        }
+    }
+    for _ in 0..rng.below(3) { xml_misc(rng, &mut d, false) }
+    let mut fault = None;
+    if xml_elem(rng, 3, &mut d, &mut fault) {
+        for _ in 0..rng.below(3) { xml_misc(rng, &mut d, false) }
+    }
+    d
+}
+
+fn xml_parse_cls(text: &str) -> String {
+    let r = catch(|| match read::xml::parse_many(text).take(4096).collect::<Result<Vec<Val>, _>>() {
+        Ok(v) => format!("V {}", vx::enc_canon(&arr(v))),
+        Err(read::xml::Error::Lex(_)) => "E lex".to_string(),
+        Err(read::xml::Error::Unmatched(..)) => "E unmatched".to_string(),
+        Err(read::xml::Error::Unclosed(..)) => "E unclosed".to_string(),
+    });
+    r.unwrap_or_else(|_| "E panic".into())
+}
+
+fn xml_write_cls(v: &Val) -> (String, Option<Vec<u8>>) {
+    let r = catch(|| match write::xml::Xml::try_from(v) {
+        Ok(x) => {
+            let mut buf = Vec::new();
+            x.write(&mut buf).unwrap();
+            (format!("W {}", if buf.is_empty() { "-".to_string() } else { vx::hex(&buf) }), Some(buf))
+        }
+        Err(write::xml::Error::InvalidEntry(..)) => ("E entry".to_string(), None),
+        Err(write::xml::Error::SingletonObj(..)) => ("E singleton".to_string(), None),
+    });
+    r.unwrap_or_else(|_| ("PANIC".into(), None))
+}
+
+/// values the writer must reject / user-made values next to reader-made ones
+fn xml_mutate(rng: &mut Rng, v: &Val) -> Val {
+    let junk = [Val::Null, int(1), Val::Bool(true), s("x"), bstr(b"t"), arr(vec![]), obj(vec![]), obj(vec![(s("t"), s("b"))]),
+                obj(vec![(s("a"), int(1)), (s("b"), int(2))]), obj(vec![(s("cdata"), int(1))]), obj(vec![(s("comment"), s("c"))]),
+                obj(vec![(s("pi"), obj(vec![(s("content"), s("c"))]))]), obj(vec![(s("pi"), obj(vec![(s("target"), s("p")), (s("x"), s("c"))]))]),
+                obj(vec![(s("doctype"), obj(vec![(s("internal"), s("c"))]))]), obj(vec![(s("doctype"), obj(vec![(s("name"), s("n")), (s("external"), int(1))]))]),
+                obj(vec![(s("xmldecl"), obj(vec![(s("version"), s("1.0")), (s("standalone"), Val::Bool(true))]))]),
+                obj(vec![(s("xmldecl"), s("x"))]), obj(vec![(bstr(b"t"), s("a"))]), obj(vec![(int(1), s("a"))]),
+                obj(vec![(s("cdata"), bstr(b"x"))]), obj(vec![(s("comment"), bstr(b"x"))]), obj(vec![(s("t"), bstr(b"a"))]),
+                obj(vec![(bstr(b"cdata"), s("x"))]), obj(vec![(s("pi"), obj(vec![(s("target"), bstr(b"p"))]))]),
+                obj(vec![(s("t"), s("a")), (s("a"), obj(vec![(s("k"), bstr(b"v"))]))]), obj(vec![(s("t"), s("a")), (s("a"), obj(vec![(bstr(b"k"), s("v"))]))]),
+                obj(vec![(s("doctype"), obj(vec![(s("name"), bstr(b"n"))]))]), obj(vec![(s("xmldecl"), obj(vec![(s("version"), bstr(b"1.0"))]))]),
+                obj(vec![(s("t"), s("a")), (s("c"), s("text"))]), obj(vec![(s("t"), s("a")), (s("a"), obj(vec![(s("k"), int(1))]))]),
+                obj(vec![(s("t"), s("a")), (s("a"), s("k"))]), obj(vec![(s("t"), int(1))]), obj(vec![(s("t"), s("a")), (s("x"), int(1))]),
+                obj(vec![(s("c"), arr(vec![])), (s("t"), s("a")), (s("t2"), s("a"))]), obj(vec![(s("c"), arr(vec![s("x")])), (s("a"), obj(vec![])), (s("t"), s("a"))])];
+    match v {
+        Val::Arr(a) if !a.is_empty() && rng.chance(3, 4) => {
+            let i = rng.below(a.len());
+            let mut b: Vec<Val> = a.iter().cloned().collect();
+            if rng.chance(1, 3) { b.insert(i, rng.pick(&junk).clone()) } else { b[i] = xml_mutate(rng, &b[i]) }
+            arr(b)
+        }
+        Val::Obj(o) if !o.is_empty() && rng.chance(3, 4) => {
+            let i = rng.below(o.len());
+            let mut kvs: Vec<(Val, Val)> = o.iter().map(|(k, v)| (k.clone(), v.clone())).collect();
+            match rng.below(4) {
+                0 => kvs[i].1 = rng.pick(&junk).clone(),
+                1 => kvs.push((s(*rng.pick(&["x", "t", "a", "c", "name", "target"])), rng.pick(&junk).clone())),
+                _ => kvs[i].1 = xml_mutate(rng, &kvs[i].1.clone()),
+            }
+            obj(kvs)
+        }
+        // a text string becomes a byte string with the same bytes (every place that demands `TStr`)
+        Val::TStr(b) if rng.chance(1, 2) => bstr(b),
+        _ => rng.pick(&junk).clone(),
+    }
+}
+
+pub fn xml_model(tier: &str) {
+    let mut rng = Rng::new(prng::seed_from_env() ^ 0x3C14);
+    let n = if tier == "thorough" { 12000 } else { 1500 };
+    let mut id = 0usize;
+    for _ in 0..n {
+        XML_ALLOW_DQ.with(|c| c.set(rng.chance(1, 3)));
+        let d = xml_doc(&mut rng);
+        let real = xml_parse_cls(&d.text);
+        // reader: model on the token stream the generator intended vs the real reader on the text
+        println!("xp{id}\tc14.xmlparse {}\t{}\t{}", d.toks.join(" "), real, vx::hex(d.text.as_bytes()));
+        id += 1;
+        let Some(vals) = real.strip_prefix("V ").and_then(|t| vx::dec(t)) else { continue };
+        // writer: the bytes `toxml` emits for what `fromxml` yielded (as one sequence)
+        let (w, bytes) = xml_write_cls(&vals);
+        println!("xw{id}\tc14.xmlwrite {}\t{}\t{}", vx::enc(&vals), w, vx::hex(d.text.as_bytes()));
+        id += 1;
+        // fixpoint: real reader on the real writer's bytes vs the model's reader on `render`
+        if let Some(b) = bytes {
+            let back = xml_parse_cls(&String::from_utf8_lossy(&b));
+            println!("xr{id}\tc14.xmlrt {}\t{}\t{}", vx::enc(&vals), back, vx::hex(d.text.as_bytes()));
+            id += 1;
+        }
+        // writer on values it must reject (or user-made ones it accepts)
+        for _ in 0..2 {
+            let m = xml_mutate(&mut rng, &vals);
+            let (w, _) = xml_write_cls(&m);
+            println!("xm{id}\tc14.xmlwrite {}\t{}\t-", vx::enc(&m), w);
+            id += 1;
+        }
+    }
+}
+
 pub fn main(args: &[String]) {
     let tier = std::env::var("VERIF_TIER").unwrap_or_else(|_| "quick".into());
     match args.first().map(|s| s.as_str()) {
@@ -923,6 +1281,7 @@ pub fn main(args: &[String]) {
         Some("cbor") => cbor(&tier),
         Some("toml") => toml(&tier),
         Some("xml") => xml(&tier),
+        Some("xml-model") => xml_model(&tier),
         _ => {
             eprintln!("usage: jaqverif c14 <yaml-strings|tab|rt|cbor|toml|xml>");
             std::process::exit(2);
